@@ -54,6 +54,7 @@ var v_get(var x, var key) {
   if (x == UB) { if (i < 0) i += NB; V_ASSERT(i >= 0 && (size_t)i < NB, "underlying iterable is only indexed in range"); return (i >= 0 && (size_t)i < NB) ? itemB(i) : Terminal; }
   struct Tuple* t = x; return t->items[i];
 }
+bool v_eq(var a, var b) { V_ASSERT(a != Terminal && b != Terminal, "Terminal is never compared as if it were an element"); return a == b; }
 static uint64_t FUNobj[4];
 #define FUN ((var)&FUNobj[3])
 static int calls = 0;
@@ -105,6 +106,12 @@ V_HARNESS {
   for (int k = 0; k < NMAX + 2 && c != Terminal; k++) { if (cb >= wn || c != itemA(want[wn - 1 - cb])) ok = 0; cb++; c = Slice_Iter_Prev(sl, c); }
   V_ASSERT(c == Terminal && ok && cb == wn, "Slice: backward iteration is the exact reverse");
   if (wn > 0) { int64_t gi = IN.gi; V_ASSUME(gi >= 0 && (size_t)gi < wn); V_ASSERT(Slice_Get(sl, $I(gi)) == itemA(want[gi]), "Slice: get(i) is the i-th element of the view"); }
+#ifdef WITH_MEM
+  /* membership: eq is identity on the opaque items (redirected); the key is an item of the underlying iterable or a foreign object */
+  { long kj = (long)(IN.omit % (NMAX + 1)); var key = kj < NMAX ? itemA(kj) : (var)&IMG[0][3];
+    _Bool present = 0; for (size_t i = 0; i <= NMAX; i++) if (i < wn && kj < NMAX && want[i] == kj) present = 1;
+    V_ASSERT(Slice_Mem(sl, key) == present, "Slice: mem answers true exactly for the elements the view yields (false, not an exception, for an absent one)"); }
+#endif
   V_ASSERT(!misuse, "Slice never reads outside the underlying iterable");
 #elif OP == OP_ZIP
   var z = zip(UA, UB);
